@@ -15,10 +15,23 @@ import (
 
 type input struct {
 	text   string
-	origin string // corpus file, "edge", or "corrupt:<file>"
+	origin string // corpus file, "edge", "corrupt:<file>", "sibling:<file>", "churn"
 	entry  int    // natural entry point
 	paths  [2]uint8
+	family int32 // index of the input this one was derived from (itself otherwise)
+	class  uint8 // clsCorpus ...
 }
+
+const (
+	clsCorpus = iota
+	clsEdge
+	clsCorrupt
+	clsSibling
+	clsChurn
+	nClasses
+)
+
+var classNames = []string{"corpus", "edge", "corrupt", "sibling", "churn"}
 
 type poolT struct {
 	inputs []input
@@ -26,8 +39,10 @@ type poolT struct {
 	ops    []opKey         // every operation of the reference table, canonical order
 	opIdx  map[opKey]int32 // index into ops
 	// groups for contention modes
-	byPath  map[uint8][]int32  // ops by path index
-	byInput map[uint32][]int32 // ops by input index
+	byPath   map[uint8][]int32  // ops by path index
+	byInput  map[uint32][]int32 // ops by input index
+	byFamily map[int32][]int32  // ops by input family
+	byClass  [nClasses][]int32  // ops by input class
 }
 
 var pool poolT
@@ -66,8 +81,8 @@ var allParseHelpers = []int{eParseStatement, eParseStatements, eParseQuery, ePar
 
 // buildPool reads the corpus from <root>/testdata/input and derives the rest from seed.
 // scale < 1 thins the corpus (quick tier).
-func buildPool(root string, seed uint64, corrupt int) error {
-	p := poolT{opIdx: map[opKey]int32{}, byPath: map[uint8][]int32{}, byInput: map[uint32][]int32{}}
+func buildPool(root string, seed uint64, corrupt, churn int) error {
+	p := poolT{opIdx: map[opKey]int32{}, byPath: map[uint8][]int32{}, byInput: map[uint32][]int32{}, byFamily: map[int32][]int32{}}
 	p.paths = append(p.paths, sharedPaths...)
 	pathIdx := map[string]uint8{}
 	for i, s := range p.paths {
@@ -105,14 +120,14 @@ func buildPool(root string, seed uint64, corrupt int) error {
 			real = uint8(3 + i%197)
 		}
 		shared := uint8(mix64(uint64(i)+77) % 3)
-		p.inputs = append(p.inputs, input{text: string(b), origin: rel, entry: e, paths: [2]uint8{real, shared}})
+		p.inputs = append(p.inputs, input{text: string(b), origin: rel, entry: e, paths: [2]uint8{real, shared}, family: int32(len(p.inputs)), class: clsCorpus})
 		corpus = append(corpus, len(p.inputs)-1)
 	}
 	if len(corpus) == 0 {
 		return fmt.Errorf("no corpus files under %s", base)
 	}
 	for i, s := range edgeInputs {
-		p.inputs = append(p.inputs, input{text: s, origin: "edge", entry: -1, paths: [2]uint8{uint8(i % 3), uint8((i + 1) % 3)}})
+		p.inputs = append(p.inputs, input{text: s, origin: "edge", entry: -1, paths: [2]uint8{uint8(i % 3), uint8((i + 1) % 3)}, family: int32(len(p.inputs)), class: clsEdge})
 	}
 	// seeded corruptions
 	rng := newRNG(seed ^ 0xc0220971)
@@ -120,7 +135,30 @@ func buildPool(root string, seed uint64, corrupt int) error {
 		src := p.inputs[corpus[rng.intn(len(corpus))]]
 		txt := corruptText(rng, src.text, p.inputs, corpus)
 		p.inputs = append(p.inputs, input{text: txt, origin: "corrupt:" + src.origin, entry: src.entry,
-			paths: [2]uint8{src.paths[0], uint8(rng.intn(3))}})
+			paths: [2]uint8{src.paths[0], uint8(rng.intn(3))}, family: src.family, class: clsCorrupt})
+	}
+	// siblings: same length, same paths as their source, different line structure or one
+	// letter changed (what a cache with a weak key confuses)
+	for i := 0; i < corrupt/2; i++ {
+		src := p.inputs[corpus[rng.intn(len(corpus))]]
+		if i%5 == 4 {
+			src = p.inputs[len(corpus)+rng.intn(len(edgeInputs))]
+		}
+		txt := siblingText(rng, src.text)
+		if txt == src.text {
+			continue
+		}
+		e := src.entry
+		if e < 0 {
+			e = allParseHelpers[rng.intn(len(allParseHelpers))]
+		}
+		p.inputs = append(p.inputs, input{text: txt, origin: "sibling:" + src.origin, entry: e, paths: src.paths, family: src.family, class: clsSibling})
+	}
+	// churn: many distinct identifiers (what a bounded cache or a pool needs to rotate)
+	for i := 0; i < churn; i++ {
+		txt, e := churnText(rng, i)
+		p.inputs = append(p.inputs, input{text: txt, origin: "churn", entry: e, paths: [2]uint8{uint8(rng.intn(3)), uint8(rng.intn(3))},
+			family: int32(len(p.inputs)), class: clsChurn})
 	}
 
 	add := func(k opKey) {
@@ -133,13 +171,16 @@ func buildPool(root string, seed uint64, corrupt int) error {
 		p.opIdx[k] = int32(len(p.ops))
 		p.byPath[k.Path] = append(p.byPath[k.Path], int32(len(p.ops)))
 		p.byInput[k.Input] = append(p.byInput[k.Input], int32(len(p.ops)))
+		in := p.inputs[k.Input]
+		p.byFamily[in.family] = append(p.byFamily[in.family], int32(len(p.ops)))
+		p.byClass[in.class] = append(p.byClass[in.class], int32(len(p.ops)))
 		p.ops = append(p.ops, k)
 	}
 	for i, in := range p.inputs {
 		ii := uint32(i)
 		var bases []opKey
 		switch {
-		case in.origin == "edge":
+		case in.class == clsEdge:
 			for _, e := range allParseHelpers {
 				bases = append(bases, opKey{Entry: uint8(e), Path: in.paths[0], Input: ii})
 			}
@@ -161,7 +202,7 @@ func buildPool(root string, seed uint64, corrupt int) error {
 			add(b) // variant 0
 			// a rotating selection of the other variants
 			nv := 3
-			if in.origin == "edge" {
+			if in.class == clsEdge || in.class == clsChurn {
 				nv = 1
 			}
 			for t := 0; t < nv; t++ {
@@ -223,6 +264,76 @@ func corruptText(r *rng, s string, inputs []input, corpus []int) string {
 		b.WriteString(f)
 	}
 	return b.String()
+}
+
+// siblingText returns a text of the same length as s: a space and a newline swapped, or one
+// letter replaced.
+func siblingText(r *rng, s string) string {
+	b := []byte(s)
+	var sp, nl, al []int
+	for i, c := range b {
+		switch {
+		case c == ' ':
+			sp = append(sp, i)
+		case c == '\n':
+			nl = append(nl, i)
+		case 'a' <= c && c <= 'z' || 'A' <= c && c <= 'Z':
+			al = append(al, i)
+		}
+	}
+	switch k := r.intn(3); {
+	case k == 0 && len(sp) > 0 && len(nl) > 0:
+		i, j := sp[r.intn(len(sp))], nl[r.intn(len(nl))]
+		b[i], b[j] = b[j], b[i]
+	case k <= 1 && len(sp) > 0:
+		b[sp[r.intn(len(sp))]] = '\n'
+	case len(al) > 0:
+		i := al[r.intn(len(al))]
+		b[i] = "etaoinshrdluETAOINSHRDLU"[r.intn(24)]
+	case len(sp) > 0:
+		b[sp[r.intn(len(sp))]] = '\n'
+	}
+	return string(b)
+}
+
+var churnTemplates = []struct {
+	entry int
+	text  string
+}{
+	{eParseQuery, "SELECT #, #.#, # AS # FROM # AS # JOIN # ON #.# = #.# WHERE # = @# AND # IN (1, 2) ORDER BY #"},
+	{eParseQuery, "WITH # AS (SELECT # FROM #) SELECT #(#, #) FROM #, UNNEST(#) AS # GROUP BY # HAVING # > 0"},
+	{eParseDDL, "CREATE TABLE # (# INT64 NOT NULL, # STRING(MAX), # BOOL, # TIMESTAMP) PRIMARY KEY (#, #), INTERLEAVE IN PARENT #"},
+	{eParseDDL, "CREATE INDEX # ON # (#, # DESC) STORING (#, #)"},
+	{eParseDDL, "ALTER TABLE # ADD COLUMN # STRING(10)"},
+	{eParseDML, "INSERT INTO # (#, #, #) VALUES (1, '#', @#)"},
+	{eParseDML, "UPDATE # SET # = # + 1, # = '#' WHERE # LIKE '#%' AND #.# IS NOT NULL"},
+	{eParseDML, "DELETE FROM # WHERE # = @# OR # BETWEEN # AND #"},
+	{eParseExpr, "#.#(#, # => 1) + CAST(# AS INT64) * #[OFFSET(#)]"},
+	{eParseExpr, "CASE # WHEN # THEN # ELSE # END"},
+	{eParseStatement, "SELECT # FROM # WHERE # = (SELECT MAX(#) FROM # WHERE # = #.#) -- #\n;"},
+	{eParseQuery, "SELECT # FROM # WHERE # = ( -- #\n  #"},
+	{eParseDDL, "CREATE TABLE # (# INT64, # # #) PRIMARY KEY (#)"},
+}
+
+// churnText instantiates a template with fresh identifiers (unique per n and position).
+func churnText(r *rng, n int) (string, int) {
+	t := churnTemplates[n%len(churnTemplates)]
+	var b strings.Builder
+	k := 0
+	for i := 0; i < len(t.text); i++ {
+		if t.text[i] != '#' {
+			b.WriteByte(t.text[i])
+			continue
+		}
+		k++
+		// a unique word of 2..18 bytes, mixed case
+		id := fmt.Sprintf("%c%x_%x", "abcdefghijklmnopqrstuvwxyzABCDEFGHIJKLMNOPQRSTUVWXYZ"[r.intn(52)], n, k)
+		for pad := r.intn(8); pad > 0 && len(id) < 18; pad-- {
+			id += string("xyzXYZ019_"[r.intn(10)])
+		}
+		b.WriteString(id)
+	}
+	return b.String(), t.entry
 }
 
 // ---- PRNG: one SplitMix64 stream per run --------------------------------------------------------
